@@ -70,6 +70,7 @@ type pkgInfo struct {
 	info    *types.Info
 	src     map[string][]byte
 	typeErr []types.Error
+	tpkg    *types.Package // third mode only
 }
 
 func loadPkg(dir string) (*pkgInfo, error) { return loadPkgWith(dir, failImporter{}) }
@@ -1464,6 +1465,7 @@ func main() {
 	out := flag.String("out", "/verif/coq/theories/Gen/Kernels.v", "output file")
 	funcs := flag.String("funcs", "", "for the self-test only: comma-separated dir:func list replacing the built-in kernel list")
 	no2 := flag.Bool("no2", false, "do not write Kernels2.v (monadic mode)")
+	no3 := flag.Bool("no3", false, "do not write Kernels3.v (third mode)")
 	flag.Parse()
 	if *funcs != "" {
 		kernels = nil
@@ -1540,7 +1542,30 @@ func main() {
 		fmt.Fprintf(os.Stderr, "gotrans: %d function(s) could not be translated; %s and %s left untouched (the tie to the source is BROKEN)\n", len(errs2), *out, out2)
 		os.Exit(1)
 	}
+	out3 := filepath.Join(filepath.Dir(*out), "Kernels3.v")
+	text3, errs3 := "", []string(nil)
+	if *funcs == "" && !*no2 && !*no3 {
+		text3, errs3 = buildKernels3(*repo, kernels3)
+	}
+	if len(errs3) > 0 {
+		for _, e := range errs3 {
+			fmt.Fprintln(os.Stderr, "gotrans:", e)
+		}
+		fmt.Fprintf(os.Stderr, "gotrans: %d function(s) could not be translated; %s, %s and %s left untouched (the tie to the source is BROKEN)\n", len(errs3), *out, out2, out3)
+		os.Exit(1)
+	}
 	changed := 0
+	if text3 != "" {
+		old3, _ := os.ReadFile(out3)
+		if !bytes.Equal(old3, []byte(text3)) {
+			if err := os.WriteFile(out3, []byte(text3), 0o644); err != nil {
+				fmt.Fprintln(os.Stderr, "gotrans:", err)
+				os.Exit(2)
+			}
+			fmt.Println("updated", out3)
+			changed++
+		}
+	}
 	if text2 != "" {
 		old2, _ := os.ReadFile(out2)
 		if !bytes.Equal(old2, []byte(text2)) {
